@@ -17,27 +17,522 @@ structure WF (t : T) : Prop where
   min_mem : ∃ p ∈ t.patterns, p.length = t.minLen
   bytes : ∀ p ∈ t.patterns, ∀ b ∈ p, b < 256
 
+/-! ### bit-level helpers -/
+
+theorem foldl_or_testBit {α : Type} (f : α → Nat) (l : List α) (a b : Nat) :
+    (l.foldl (fun acc x => acc ||| f x) a).testBit b = (a.testBit b || l.any (fun x => (f x).testBit b)) := by
+  induction l generalizing a with
+  | nil => simp
+  | cons x xs ih => simp [ih, Nat.testBit_or, Bool.or_assoc]
+
+theorem foldl_and_testBit {α : Type} (f g : α → Nat) (l : List α) (a b : Nat) :
+    (l.foldl (fun acc x => acc &&& f x &&& g x) a).testBit b
+      = (a.testBit b && l.all (fun x => (f x).testBit b && (g x).testBit b)) := by
+  induction l generalizing a with
+  | nil => simp
+  | cons x xs ih => simp [ih, Nat.testBit_and, Bool.and_assoc]
+
+theorem one_shiftLeft_testBit_self (k : Nat) : (1 <<< k).testBit k = true := by
+  rw [Nat.one_shiftLeft]; exact Nat.testBit_two_pow_self
+
+theorem testBit_255 (k : Nat) (hk : k < 8) : (255 : Nat).testBit k = true := by
+  have := Nat.testBit_two_pow_sub_one 8 k
+  simpa [hk] using this
+
+theorem nb_pos {t : T} (wf : WF t) : 0 < t.nb := by
+  have := wf.nonempty
+  have h2 : 0 < t.patterns.length := List.length_pos_iff.mpr this
+  rw [wf.nb_eq]; omega
+
+theorem nb_le {t : T} (wf : WF t) : t.nb ≤ 8 := by
+  rw [wf.nb_eq]; omega
+
+theorem loMask_bit (t : T) (pos : Nat) (p : Pat) (id : Nat) (hp : t.patterns[id]? = some p) :
+    (loMask t pos (p.getD pos 0 % 16)).testBit (id % t.nb) = true := by
+  show ((t.patterns.zipIdx.filter fun x => x.1.getD pos 0 % 16 = p.getD pos 0 % 16).foldl
+      (fun acc x => acc ||| (1 <<< (x.2 % t.nb))) 0).testBit (id % t.nb) = true
+  rw [foldl_or_testBit (fun x : Pat × Nat => 1 <<< (x.2 % t.nb))]
+  simp only [Nat.zero_testBit, Bool.false_or, List.any_eq_true]
+  refine ⟨(p, id), ?_, one_shiftLeft_testBit_self _⟩
+  rw [List.mem_filter]
+  exact ⟨List.mem_zipIdx_iff_getElem?.mpr hp, by simp⟩
+
+theorem hiMask_bit (t : T) (pos : Nat) (p : Pat) (id : Nat) (hp : t.patterns[id]? = some p) :
+    (hiMask t pos (p.getD pos 0 / 16 % 16)).testBit (id % t.nb) = true := by
+  show ((t.patterns.zipIdx.filter fun x => x.1.getD pos 0 / 16 % 16 = p.getD pos 0 / 16 % 16).foldl
+      (fun acc x => acc ||| (1 <<< (x.2 % t.nb))) 0).testBit (id % t.nb) = true
+  rw [foldl_or_testBit (fun x : Pat × Nat => 1 <<< (x.2 % t.nb))]
+  simp only [Nat.zero_testBit, Bool.false_or, List.any_eq_true]
+  refine ⟨(p, id), ?_, one_shiftLeft_testBit_self _⟩
+  rw [List.mem_filter]
+  exact ⟨List.mem_zipIdx_iff_getElem?.mpr hp, by simp⟩
+
+theorem occursAt_at {h : Bytes} {p : Pat} {i : Nat} (ho : occursAt h p i = true) :
+    i + p.length ≤ h.size ∧ ∀ k, k < p.length → h.at (i + k) = p.getD k 0 := by
+  unfold occursAt at ho
+  simp only [Bool.and_eq_true, decide_eq_true_eq, List.all_eq_true, List.mem_range] at ho
+  exact ho
+
 /-- C16 mask soundness: if pattern number `id` occurs at offset `i`, its bucket bit is set in the candidate mask -/
 theorem candMask_sound (t : T) (wf : WF t) (h : Bytes) (hb : ∀ k, h.at k < 256) (i id : Nat) (p : Pat)
     (hp : t.patterns[id]? = some p) (ho : occursAt h p i = true) :
     (candMask t h i).testBit (id % t.nb) = true := by
-  sorry
+  have _ := hb  -- not needed: an occurrence forces the nibbles to agree
+  have hlt : id % t.nb < 8 := Nat.lt_of_lt_of_le (Nat.mod_lt _ (nb_pos wf)) (nb_le wf)
+  have hmem : p ∈ t.patterns := List.mem_of_getElem? hp
+  have hfp := wf.fp_le p hmem
+  obtain ⟨_, hat⟩ := occursAt_at ho
+  unfold candMask
+  rw [foldl_and_testBit (fun pos => loMask t pos (h.at (i + pos) % 16))
+      (fun pos => hiMask t pos (h.at (i + pos) / 16 % 16))]
+  rw [testBit_255 _ hlt, Bool.true_and, List.all_eq_true]
+  intro pos hpos
+  rw [List.mem_range] at hpos
+  rw [hat pos (by omega), loMask_bit t pos p id hp, hiMask_bit t pos p id hp]
+  rfl
+
+
+/-! ### the specification side -/
+
+/-- some pattern occurs at offset `i` -/
+def occ (t : T) (h : Bytes) (i : Nat) : Bool := t.patterns.any fun p => occursAt h p i
+
+theorem occ_of_get {t : T} {h : Bytes} {i id : Nat} {p : Pat} (hp : t.patterns[id]? = some p)
+    (ho : occursAt h p i = true) : occ t h i = true := by
+  unfold occ
+  rw [List.any_eq_true]
+  exact ⟨p, List.mem_of_getElem? hp, ho⟩
+
+theorem occ_false_get {t : T} {h : Bytes} {i id : Nat} {p : Pat} (hocc : occ t h i = false)
+    (hp : t.patterns[id]? = some p) : occursAt h p i = false := by
+  cases ho : occursAt h p i with
+  | false => rfl
+  | true => rw [occ_of_get hp ho] at hocc; exact absurd hocc (by simp)
+
+theorem occ_exists {t : T} {h : Bytes} {i : Nat} (ho : occ t h i = true) :
+    ∃ (id : Nat) (p : Pat), t.patterns[id]? = some p ∧ occursAt h p i = true := by
+  unfold occ at ho
+  rw [List.any_eq_true] at ho
+  obtain ⟨p, hm, hp⟩ := ho
+  obtain ⟨id, hid⟩ := List.mem_iff_getElem?.mp hm
+  exact ⟨id, p, hid, hp⟩
+
+/-- least-index form of a search result -/
+def Least (P : Nat → Bool) (i : Nat) : Option Nat → Prop
+  | none => ∀ j, i ≤ j → P j = false
+  | some s => i ≤ s ∧ P s = true ∧ ∀ j, i ≤ j → j < s → P j = false
+
+theorem naive_none (pats : List Pat) (h : Bytes) : ∀ fuel i,
+    (∀ j, i ≤ j → (pats.any fun p => occursAt h p j) = false) → naiveFind pats h fuel i = none
+  | 0, _, _ => rfl
+  | fuel+1, i, hno => by
+    simp only [naiveFind]
+    split
+    · rfl
+    · rw [hno i (Nat.le_refl _)]
+      simp only [Bool.false_eq_true, ↓reduceIte]
+      exact naive_none pats h fuel (i+1) (fun j hj => hno j (by omega))
+
+theorem naive_some (pats : List Pat) (h : Bytes) (s : Nat) (hs : s ≤ h.size)
+    (hocc : (pats.any fun p => occursAt h p s) = true) : ∀ fuel i, i ≤ s → h.size + 1 ≤ fuel + i →
+    (∀ j, i ≤ j → j < s → (pats.any fun p => occursAt h p j) = false) → naiveFind pats h fuel i = some s
+  | 0, i, his, hf, _ => by omega
+  | fuel+1, i, his, hf, hno => by
+    simp only [naiveFind]
+    rw [if_neg (by omega)]
+    by_cases hi : i = s
+    · subst hi
+      rw [if_pos hocc]
+    · rw [hno i (Nat.le_refl _) (by omega)]
+      simp only [Bool.false_eq_true, ↓reduceIte]
+      exact naive_some pats h s hs hocc fuel (i+1) (by omega) (by omega) (fun j hj hjs => hno j (by omega) hjs)
+
+theorem occ_le_size {t : T} {h : Bytes} {i : Nat} (ho : occ t h i = true) : i ≤ h.size := by
+  obtain ⟨_, p, _, hp⟩ := occ_exists ho
+  have := (occursAt_at hp).1
+  omega
+
+theorem naive_of_least (t : T) (h : Bytes) (fuel i : Nat) (r : Option Nat) (hf : h.size + 1 ≤ fuel + i)
+    (hl : Least (occ t h) i r) : naiveFind t.patterns h fuel i = r := by
+  cases r with
+  | none => exact naive_none _ _ _ _ hl
+  | some s =>
+    obtain ⟨h1, h2, h3⟩ := hl
+    exact naive_some _ _ s (occ_le_size h2) h2 fuel i h1 hf h3
+
+/-- an occurrence of a pattern of a well-formed table lies strictly inside the haystack, with room for
+    `fpLen` and `minLen` bytes -/
+theorem occ_room {t : T} (wf : WF t) {h : Bytes} {i : Nat} (ho : occ t h i = true) :
+    i + t.fpLen ≤ h.size ∧ i + t.minLen ≤ h.size ∧ i < h.size := by
+  obtain ⟨_, p, hp, hop⟩ := occ_exists ho
+  have hm := List.mem_of_getElem? hp
+  have h1 := (occursAt_at hop).1
+  have h2 := wf.fp_le p hm
+  have h3 := wf.min_le p hm
+  have h4 := wf.fp_pos
+  omega
+
+theorem occ_cand {t : T} (wf : WF t) {h : Bytes} (hb : ∀ k, h.at k < 256) {i : Nat} (ho : occ t h i = true) :
+    candMask t h i ≠ 0 := by
+  obtain ⟨id, p, hp, hop⟩ := occ_exists ho
+  have := candMask_sound t wf h hb i id p hp hop
+  intro h0
+  rw [h0, Nat.zero_testBit] at this
+  exact absurd this (by simp)
+
+/-! ### candidate search -/
+
+theorem findCand_some (t : T) (h : Bytes) : ∀ fuel i pos m, findCand t h fuel i = some (pos, m) →
+    i ≤ pos ∧ pos + t.fpLen ≤ h.size ∧ m = candMask t h pos ∧ m ≠ 0 ∧ ∀ j, i ≤ j → j < pos → candMask t h j = 0
+  | 0, _, _, _, hr => nomatch hr
+  | fuel+1, i, pos, m, hr => by
+    simp only [findCand] at hr
+    split at hr
+    · exact nomatch hr
+    · split at hr
+      · rename_i hm
+        injection hr with hr
+        injection hr with h1 h2
+        subst h1; subst h2
+        exact ⟨Nat.le_refl _, by omega, rfl, hm, fun j _ _ => by omega⟩
+      · rename_i hm
+        obtain ⟨a, b, c, d, e⟩ := findCand_some t h fuel (i+1) pos m hr
+        refine ⟨by omega, b, c, d, fun j hj hjp => ?_⟩
+        by_cases hji : j = i
+        · subst hji; simpa using hm
+        · exact e j (by omega) hjp
+
+theorem findCand_none (t : T) (h : Bytes) : ∀ fuel i, findCand t h fuel i = none → h.size + 1 ≤ fuel + i →
+    ∀ j, i ≤ j → j + t.fpLen ≤ h.size → candMask t h j = 0
+  | 0, _, _, hf, j, hj, hjl => by omega
+  | fuel+1, i, hr, hf, j, hj, hjl => by
+    simp only [findCand] at hr
+    split at hr
+    · omega
+    · split at hr
+      · exact nomatch hr
+      · rename_i hm
+        by_cases hji : j = i
+        · subst hji; simpa using hm
+        · exact findCand_none t h fuel (i+1) hr (by omega) j (by omega) hjl
+
+/-! ### verification -/
+
+theorem verifyBucket_some {t : T} {h : Bytes} {pos b id : Nat} (hr : verifyBucket t h pos b = some id) :
+    ∃ p, t.patterns[id]? = some p ∧ occursAt h p pos = true ∧ id % t.nb = b := by
+  unfold verifyBucket at hr
+  rw [Option.map_eq_some_iff] at hr
+  obtain ⟨⟨p, id'⟩, hf, hid⟩ := hr
+  simp only at hid
+  subst hid
+  have h1 := List.find?_some hf
+  have h2 := List.mem_of_find?_eq_some hf
+  rw [List.mem_filter] at h2
+  exact ⟨p, List.mem_zipIdx_iff_getElem?.mp h2.1, h1, by simpa using h2.2⟩
+
+theorem verifyBucket_none {t : T} {h : Bytes} {pos b : Nat} (hr : verifyBucket t h pos b = none)
+    {id : Nat} {p : Pat} (hp : t.patterns[id]? = some p) (hb : id % t.nb = b) : occursAt h p pos = false := by
+  unfold verifyBucket at hr
+  rw [Option.map_eq_none_iff, List.find?_eq_none] at hr
+  have := hr (p, id) (by
+    rw [List.mem_filter]
+    exact ⟨List.mem_zipIdx_iff_getElem?.mpr hp, by simpa using hb⟩)
+  simpa using this
+
+theorem range_findSome?_some {β : Type} (f : Nat → Option β) (v : β) : ∀ n, (List.range n).findSome? f = some v →
+    ∃ b, b < n ∧ f b = some v ∧ ∀ c, c < b → f c = none
+  | 0, hr => by simp at hr
+  | n+1, hr => by
+    rw [List.range_succ, List.findSome?_append] at hr
+    cases hn : (List.range n).findSome? f with
+    | some v' =>
+      rw [hn] at hr
+      have hr : v' = v := by simpa using hr
+      rw [hr] at hn
+      obtain ⟨b, hb, h1, h2⟩ := range_findSome?_some f v n hn
+      exact ⟨b, by omega, h1, h2⟩
+    | none =>
+      rw [hn] at hr
+      simp only [Option.none_or, List.findSome?_cons, List.findSome?_nil] at hr
+      rw [List.findSome?_eq_none_iff] at hn
+      refine ⟨n, by omega, ?_, fun c hc => hn c (List.mem_range.mpr hc)⟩
+      cases hfn : f n with
+      | none => rw [hfn] at hr; exact nomatch hr
+      | some w => rw [hfn] at hr; simpa using hr
+
+theorem verifyMask_some {t : T} {h : Bytes} {pos m id : Nat} (hr : verifyMask t h pos m = some id) :
+    ∃ b, b < 8 ∧ m.testBit b = true ∧ verifyBucket t h pos b = some id ∧
+      ∀ c, c < b → m.testBit c = true → verifyBucket t h pos c = none := by
+  unfold verifyMask at hr
+  obtain ⟨b, hb, h1, h2⟩ := range_findSome?_some _ _ _ hr
+  refine ⟨b, hb, ?_, ?_, ?_⟩
+  · cases hm : m.testBit b with
+    | true => rfl
+    | false => simp [hm] at h1
+  · cases hm : m.testBit b with
+    | true => simpa [hm] using h1
+    | false => simp [hm] at h1
+  · intro c hc hm
+    have := h2 c hc
+    simpa [hm] using this
+
+theorem verifyMask_none {t : T} {h : Bytes} {pos m : Nat} (hr : verifyMask t h pos m = none)
+    {b : Nat} (hb : b < 8) (hm : m.testBit b = true) : verifyBucket t h pos b = none := by
+  unfold verifyMask at hr
+  rw [List.findSome?_eq_none_iff] at hr
+  have := hr b (List.mem_range.mpr hb)
+  simpa [hm] using this
+
+theorem verifyMask_none_occ {t : T} (wf : WF t) {h : Bytes} (hb : ∀ k, h.at k < 256) {pos : Nat}
+    (hr : verifyMask t h pos (candMask t h pos) = none) : occ t h pos = false := by
+  cases ho : occ t h pos with
+  | false => rfl
+  | true =>
+    obtain ⟨id, p, hp, hop⟩ := occ_exists ho
+    have hbit := candMask_sound t wf h hb pos id p hp hop
+    have hlt : id % t.nb < 8 := Nat.lt_of_lt_of_le (Nat.mod_lt _ (nb_pos wf)) (nb_le wf)
+    have := verifyBucket_none (verifyMask_none hr hlt hbit) hp rfl
+    rw [this] at hop
+    exact absurd hop (by simp)
+
+/-! ### the resume loop -/
+
+theorem findLoop_some (t : T) (h : Bytes) : ∀ fuel from_ s id, findLoop t h fuel from_ = some (s, id) →
+    from_ ≤ s ∧ verifyMask t h s (candMask t h s) = some id
+  | 0, _, _, _, hr => nomatch hr
+  | fuel+1, from_, s, id, hr => by
+    simp only [findLoop] at hr
+    split at hr
+    · exact nomatch hr
+    · rename_i pos mask hc
+      obtain ⟨a, b, c, d, e⟩ := findCand_some t h _ _ _ _ hc
+      split at hr
+      · rename_i id' hv
+        injection hr with hr
+        injection hr with h1 h2
+        subst h1; subst h2; subst c
+        exact ⟨a, hv⟩
+      · split at hr
+        · exact nomatch hr
+        · obtain ⟨x, y⟩ := findLoop_some t h fuel (pos+1) s id hr
+          exact ⟨by omega, y⟩
+
+theorem findLoop_least (t : T) (wf : WF t) (h : Bytes) (hb : ∀ k, h.at k < 256) : ∀ fuel from_,
+    h.size ≤ fuel + from_ → Least (occ t h) from_ ((findLoop t h fuel from_).map (·.1))
+  | 0, from_, hf => by
+    simp only [findLoop, Option.map_none, Least]
+    intro j hj
+    cases ho : occ t h j with
+    | false => rfl
+    | true => have := (occ_room wf ho).2.2; omega
+  | fuel+1, from_, hf => by
+    simp only [findLoop]
+    split
+    · rename_i hc
+      simp only [Option.map_none, Least]
+      intro j hj
+      cases ho : occ t h j with
+      | false => rfl
+      | true =>
+        have h0 := findCand_none t h _ _ hc (by omega) j hj (occ_room wf ho).1
+        exact absurd h0 (occ_cand wf hb ho)
+    · rename_i pos mask hc
+      obtain ⟨a, b, c, d, e⟩ := findCand_some t h _ _ _ _ hc
+      subst c
+      have hbefore : ∀ j, from_ ≤ j → j < pos → occ t h j = false := by
+        intro j hj hjp
+        cases ho : occ t h j with
+        | false => rfl
+        | true => exact absurd (e j hj hjp) (occ_cand wf hb ho)
+      split
+      · rename_i id hv
+        simp only [Option.map_some, Least]
+        obtain ⟨bk, _, _, hvb, _⟩ := verifyMask_some hv
+        obtain ⟨p, hp, hop, _⟩ := verifyBucket_some hvb
+        exact ⟨a, occ_of_get hp hop, hbefore⟩
+      · rename_i hv
+        have hpos := verifyMask_none_occ wf hb hv
+        split
+        · simp only [Option.map_none, Least]
+          intro j hj
+          cases ho : occ t h j with
+          | false => rfl
+          | true =>
+            have := (occ_room wf ho).2.2
+            by_cases hjq : j = pos
+            · subst hjq; rw [hpos] at ho; exact nomatch ho
+            · have : j < pos := by omega
+              rw [hbefore j hj this] at ho
+              exact nomatch ho
+        · have ih := findLoop_least t wf h hb fuel (pos+1) (by omega)
+          cases hrec : findLoop t h fuel (pos+1) with
+          | none =>
+            rw [hrec] at ih
+            simp only [Option.map_none, Least] at ih ⊢
+            intro j hj
+            by_cases hjp : j < pos
+            · exact hbefore j hj hjp
+            · by_cases hjq : j = pos
+              · subst hjq; exact hpos
+              · exact ih j (by omega)
+          | some r =>
+            rw [hrec] at ih
+            simp only [Option.map_some, Least] at ih ⊢
+            obtain ⟨i1, i2, i3⟩ := ih
+            refine ⟨by omega, i2, fun j hj hjs => ?_⟩
+            by_cases hjp : j < pos
+            · exact hbefore j hj hjp
+            · by_cases hjq : j = pos
+              · subst hjq; exact hpos
+              · exact i3 j (by omega) hjs
+
+/-! ### the short-haystack path -/
+
+theorem find?_zipIdx_some {l : List Pat} {P : Pat → Bool} {p : Pat} {id : Nat}
+    (hr : (l.zipIdx.find? fun (p, _) => P p) = some (p, id)) :
+    l[id]? = some p ∧ P p = true ∧ ∀ j q, j < id → l[j]? = some q → P q = false := by
+  rw [List.find?_eq_some_iff_getElem] at hr
+  obtain ⟨h1, k, hk, h2, h3⟩ := hr
+  rw [List.getElem_zipIdx] at h2
+  simp only [Nat.zero_add, Prod.mk.injEq] at h2
+  obtain ⟨h2a, h2b⟩ := h2
+  subst h2b
+  rw [List.length_zipIdx] at hk
+  refine ⟨?_, h1, ?_⟩
+  · rw [List.getElem?_eq_getElem hk, h2a]
+  · intro j q hj hq
+    have := h3 j hj
+    rw [List.getElem_zipIdx] at this
+    have hjl : j < l.length := by omega
+    rw [List.getElem?_eq_getElem hjl] at hq
+    injection hq with hq
+    rw [hq] at this
+    simpa using this
+
+theorem find?_zipIdx_none {l : List Pat} {P : Pat → Bool}
+    (hr : (l.zipIdx.find? fun (p, _) => P p) = none) : l.any P = false := by
+  rw [List.find?_eq_none] at hr
+  cases ha : l.any P with
+  | false => rfl
+  | true =>
+    rw [List.any_eq_true] at ha
+    obtain ⟨p, hm, hp⟩ := ha
+    obtain ⟨id, hid⟩ := List.mem_iff_getElem?.mp hm
+    have := hr (p, id) (List.mem_zipIdx_iff_getElem?.mpr hid)
+    exact absurd hp this
+
+theorem findScalar_some (t : T) (h : Bytes) : ∀ fuel i s id, findScalar t h fuel i = some (s, id) →
+    i ≤ s ∧ (∃ p, t.patterns[id]? = some p ∧ occursAt h p s = true) ∧
+    (∀ j q, j < id → t.patterns[j]? = some q → occursAt h q s = false) ∧
+    ∀ k, i ≤ k → k < s → occ t h k = false
+  | 0, _, _, _, hr => nomatch hr
+  | fuel+1, i, s, id, hr => by
+    simp only [findScalar] at hr
+    split at hr
+    · exact nomatch hr
+    · split at hr
+      · rename_i p id' hf
+        injection hr with hr
+        injection hr with h1 h2
+        subst h1; subst h2
+        obtain ⟨a, b, c⟩ := find?_zipIdx_some (P := fun p => occursAt h p i) hf
+        exact ⟨Nat.le_refl _, ⟨p, a, b⟩, c, fun k _ _ => by omega⟩
+      · rename_i hf
+        have hno := find?_zipIdx_none (P := fun p => occursAt h p i) hf
+        obtain ⟨a, b, c, d⟩ := findScalar_some t h fuel (i+1) s id hr
+        refine ⟨by omega, b, c, fun k hk hks => ?_⟩
+        by_cases hki : k = i
+        · subst hki; exact hno
+        · exact d k (by omega) hks
+
+theorem findScalar_none (t : T) (wf : WF t) (h : Bytes) : ∀ fuel i, findScalar t h fuel i = none →
+    h.size + 1 ≤ fuel + i → ∀ k, i ≤ k → occ t h k = false
+  | 0, i, _, hf, k, hk => by
+    cases ho : occ t h k with
+    | false => rfl
+    | true => have := (occ_room wf ho).2.2; omega
+  | fuel+1, i, hr, hf, k, hk => by
+    simp only [findScalar] at hr
+    split at hr
+    · cases ho : occ t h k with
+      | false => rfl
+      | true => have := (occ_room wf ho).2.1; omega
+    · split at hr
+      · exact nomatch hr
+      · rename_i hf'
+        have hno := find?_zipIdx_none (P := fun p => occursAt h p i) hf'
+        by_cases hki : k = i
+        · subst hki; exact hno
+        · exact findScalar_none t wf h fuel (i+1) hr (by omega) k (by omega)
+
+theorem findScalar_least (t : T) (wf : WF t) (h : Bytes) (fuel i : Nat) (hf : h.size + 1 ≤ fuel + i) :
+    Least (occ t h) i ((findScalar t h fuel i).map (·.1)) := by
+  cases hr : findScalar t h fuel i with
+  | none => exact findScalar_none t wf h fuel i hr hf
+  | some r =>
+    obtain ⟨s, id⟩ := r
+    obtain ⟨a, ⟨p, hp, hop⟩, _, d⟩ := findScalar_some t h fuel i s id hr
+    exact ⟨a, occ_of_get hp hop, d⟩
+
+/-! ### the theorems -/
 
 /-- C16: `Find` returns the least offset at or after `start` where one of the literals occurs, or none -/
 theorem find_eq_naive (t : T) (wf : WF t) (h : Bytes) (hb : ∀ k, h.at k < 256) (start : Nat) :
     find t h start = if start ≥ h.size then none else naiveFind t.patterns h (h.size + 1) start := by
-  sorry
+  unfold find findMatch
+  by_cases hs : start ≥ h.size
+  · rw [if_pos hs, if_pos hs]; rfl
+  · rw [if_neg hs, if_neg hs]
+    symm
+    apply naive_of_least t h _ _ _ (by omega)
+    by_cases h16 : h.size - start < 16
+    · rw [if_pos h16]
+      exact findScalar_least t wf h _ _ (by omega)
+    · rw [if_neg h16]
+      exact findLoop_least t wf h hb _ _ (by omega)
 
 /-- C16/C07: a reported match really is an occurrence of the reported pattern, inside the haystack -/
 theorem findMatch_sound (t : T) (h : Bytes) (start s id : Nat) (hr : findMatch t h start = some (s, id)) :
     ∃ p, t.patterns[id]? = some p ∧ occursAt h p s = true ∧ start ≤ s := by
-  sorry
+  unfold findMatch at hr
+  split at hr
+  · exact nomatch hr
+  · split at hr
+    · obtain ⟨a, ⟨p, hp, hop⟩, _, _⟩ := findScalar_some t h _ _ _ _ hr
+      exact ⟨p, hp, hop, a⟩
+    · obtain ⟨a, hv⟩ := findLoop_some t h _ _ _ _ hr
+      obtain ⟨_, _, _, hvb, _⟩ := verifyMask_some hv
+      obtain ⟨p, hp, hop, _⟩ := verifyBucket_some hvb
+      exact ⟨p, hp, hop, a⟩
 
 /-- C16 ("complete ⇒ exact span" needs pattern order): with at most 8 patterns the verification order is the
     pattern order, so the reported pattern is the FIRST pattern (alternation priority) occurring at that offset -/
 theorem findMatch_priority (t : T) (wf : WF t) (h : Bytes) (hb : ∀ k, h.at k < 256) (start s id : Nat)
     (h8 : t.patterns.length ≤ 8) (hr : findMatch t h start = some (s, id)) :
     ∀ j p, j < id → t.patterns[j]? = some p → occursAt h p s = false := by
-  sorry
+  unfold findMatch at hr
+  split at hr
+  · exact nomatch hr
+  · split at hr
+    · exact (findScalar_some t h _ _ _ _ hr).2.2.1
+    · obtain ⟨_, hv⟩ := findLoop_some t h _ _ _ _ hr
+      obtain ⟨b, _, _, hvb, hprev⟩ := verifyMask_some hv
+      obtain ⟨q, hq, _, hidb⟩ := verifyBucket_some hvb
+      have hnb : t.nb = t.patterns.length := by rw [wf.nb_eq]; omega
+      have hidlt : id < t.patterns.length := by
+        have := List.getElem?_eq_some_iff.mp hq
+        exact this.1
+      have hb' : id = b := by rw [← hidb, hnb, Nat.mod_eq_of_lt hidlt]
+      subst hb'
+      intro j p hj hp
+      have hjmod : j % t.nb = j := by rw [hnb]; exact Nat.mod_eq_of_lt (by omega)
+      cases hop : occursAt h p s with
+      | false => rfl
+      | true =>
+        have hbit := candMask_sound t wf h hb s j p hp hop
+        rw [hjmod] at hbit
+        have := verifyBucket_none (hprev j hj hbit) hp hjmod
+        rw [this] at hop
+        exact nomatch hop
 
 end Cx.Teddy
